@@ -41,6 +41,8 @@ type Sim struct {
 	SetHistory [][]string // consensus sets in force over time (peer ids)
 	badSince   int        // rejected Byzantine submissions since the last committed block
 	LastTrace  *BlockTrace
+	zeroOwner  bool   // while building a transaction: name the zero address instead of the signer's
+	crashNext  string // crash point armed for follower 1's next block ("" = none)
 	Dead       bool // a node diverged from the engine's chain after a reported violation: the run stops
 	// BeforeCommit, if set, is called with the block's trace after the generic oracles ran and
 	// BEFORE the block is committed: only then do TxTrace.Pre/.Post read the true per-transaction
@@ -181,31 +183,40 @@ func MsgID(m int64) []byte {
 // BuildTx turns a transaction-producing step into a signed transaction; nil if the step is
 // not a transaction op.
 func (s *Sim) BuildTx(st kernel.Step) *types.Transaction {
+	if strings.Contains(st.S, "zo") {
+		// the step names the all-zero address as owner/approver/voter; it is signed by the usual key
+		s.zeroOwner = true
+		defer func() { s.zeroOwner = false }()
+	}
+	return s.buildTx(st)
+}
+
+func (s *Sim) buildTx(st kernel.Step) *types.Transaction {
 	w := s.W
 	a := st.Arg
 	switch st.Op {
 	case "regcand":
-		o := s.Actor(a(1))
+		o := s.named(s.Actor(a(1)))
 		return chain.SignTx(w.NewTx(chain.NodeManager, node_manager.REGISTER_CANDIDATE,
 			chain.Args(&node_manager.RegisterPeerParam{PeerPubkey: chain.PubHex(s.Peer(a(0))), Address: o.Address}), s.nextNonce()), s.signAs(st, o))
 	case "unregcand":
-		o := s.Actor(a(1))
+		o := s.named(s.Actor(a(1)))
 		return chain.SignTx(w.NewTx(chain.NodeManager, node_manager.UNREGISTER_CANDIDATE,
 			chain.Args(&node_manager.PeerParam{PeerPubkey: chain.PubHex(s.Peer(a(0))), Address: o.Address}), s.nextNonce()), s.signAs(st, o))
 	case "approvecand":
-		o := s.Actor(a(1))
+		o := s.named(s.Actor(a(1)))
 		return chain.SignTx(w.NewTx(chain.NodeManager, node_manager.APPROVE_CANDIDATE,
 			chain.Args(&node_manager.PeerParam{PeerPubkey: chain.PubHex(s.Peer(a(0))), Address: o.Address}), s.nextNonce()), s.signAs(st, o))
 	case "blacknode":
-		o := s.Actor(a(1))
+		o := s.named(s.Actor(a(1)))
 		return chain.SignTx(w.NewTx(chain.NodeManager, node_manager.BLACK_NODE,
 			chain.Args(&node_manager.PeerListParam{PeerPubkeyList: []string{chain.PubHex(s.Peer(a(0)))}, Address: o.Address}), s.nextNonce()), s.signAs(st, o))
 	case "whitenode":
-		o := s.Actor(a(1))
+		o := s.named(s.Actor(a(1)))
 		return chain.SignTx(w.NewTx(chain.NodeManager, node_manager.WHITE_NODE,
 			chain.Args(&node_manager.PeerParam{PeerPubkey: chain.PubHex(s.Peer(a(0))), Address: o.Address}), s.nextNonce()), s.signAs(st, o))
 	case "quitnode":
-		o := s.Actor(a(1))
+		o := s.named(s.Actor(a(1)))
 		return chain.SignTx(w.NewTx(chain.NodeManager, node_manager.QUIT_NODE,
 			chain.Args(&node_manager.PeerParam{PeerPubkey: chain.PubHex(s.Peer(a(0))), Address: o.Address}), s.nextNonce()), s.signAs(st, o))
 	case "commitdpos":
@@ -216,7 +227,7 @@ func (s *Sim) BuildTx(st kernel.Step) *types.Transaction {
 			BlockMsgDelay: 5000 + uint32(a(2)%3)*1000, HashMsgDelay: 6000, PeerHandshakeTimeout: 10, MaxBlockChangeView: 10000 + uint32(a(2)%5)}}), s.nextNonce())
 		return s.signPrivileged(tx, a(0), a(1))
 	case "regchain", "updchain":
-		o := s.User(a(2))
+		o := s.named(s.User(a(2)))
 		m := side_chain_manager.REGISTER_SIDE_CHAIN
 		if st.Op == "updchain" {
 			m = side_chain_manager.UPDATE_SIDE_CHAIN
@@ -225,34 +236,34 @@ func (s *Sim) BuildTx(st kernel.Step) *types.Transaction {
 			BlocksToWait: uint64(1 + a(3)%3), CCMCAddress: []byte{0xcc, byte(a(0)), byte(a(3))}, ExtraInfo: []byte{byte(a(3))}}
 		return chain.SignTx(w.NewTx(chain.SideChainManager, m, chain.Args(p), s.nextNonce()), s.signAs(st, o))
 	case "approvechain", "approveupd", "approvequit":
-		o := s.Actor(a(1))
+		o := s.named(s.Actor(a(1)))
 		m := map[string]string{"approvechain": side_chain_manager.APPROVE_REGISTER_SIDE_CHAIN, "approveupd": side_chain_manager.APPROVE_UPDATE_SIDE_CHAIN,
 			"approvequit": side_chain_manager.APPROVE_QUIT_SIDE_CHAIN}[st.Op]
 		return chain.SignTx(w.NewTx(chain.SideChainManager, m, chain.Args(&side_chain_manager.ChainidParam{Chainid: ChainID(a(0)), Address: o.Address}), s.nextNonce()), s.signAs(st, o))
 	case "quitchain":
-		o := s.User(a(1))
+		o := s.named(s.User(a(1)))
 		return chain.SignTx(w.NewTx(chain.SideChainManager, side_chain_manager.QUIT_SIDE_CHAIN,
 			chain.Args(&side_chain_manager.ChainidParam{Chainid: ChainID(a(0)), Address: o.Address}), s.nextNonce()), s.signAs(st, o))
 	case "regrelayer", "rmrelayer":
-		o := s.Actor(a(1))
+		o := s.named(s.Actor(a(1)))
 		m := relayer_manager.REGISTER_RELAYER
 		if st.Op == "rmrelayer" {
 			m = relayer_manager.REMOVE_RELAYER
 		}
 		return chain.SignTx(w.NewTx(chain.RelayerManager, m, chain.Args(&relayer_manager.RelayerListParam{AddressList: []common.Address{s.User(a(0)).Address}, Address: o.Address}), s.nextNonce()), s.signAs(st, o))
 	case "approverelayer", "approvermrelayer":
-		o := s.Actor(a(1))
+		o := s.named(s.Actor(a(1)))
 		m := relayer_manager.APPROVE_REGISTER_RELAYER
 		if st.Op == "approvermrelayer" {
 			m = relayer_manager.APPROVE_REMOVE_RELAYER
 		}
 		return chain.SignTx(w.NewTx(chain.RelayerManager, m, chain.Args(&relayer_manager.ApproveRelayerParam{ID: uint64(abs(a(0)) % 4), Address: o.Address}), s.nextNonce()), s.signAs(st, o))
 	case "import": // vote-router import: [src, dst, msg, voter, variant]
-		o := s.Actor(a(3))
+		o := s.named(s.Actor(a(3)))
 		p := s.ImportParam(a(0), a(1), a(2), a(4), o)
 		return chain.SignTx(w.NewTx(chain.CrossChain, ccom.IMPORT_OUTER_TRANSFER_NAME, chain.Args(p), s.nextNonce()), s.signAs(st, o))
 	case "addsig": // signature manager: [subject, signer]
-		o := s.Actor(a(1))
+		o := s.named(s.Actor(a(1)))
 		p := &signature_manager.AddSignatureParam{Address: o.Address, SideChainID: 1, Subject: []byte{0x5b, byte(a(0) % 5)}, Signature: []byte{byte(a(1)), byte(a(0))}}
 		return chain.SignTx(w.NewTx(chain.SigManager, signature_manager.ADD_SIGNATURE, chain.Args(p), s.nextNonce()), s.signAs(st, o))
 	case "blackchain", "whitechain":
@@ -276,8 +287,22 @@ func (s *Sim) signAs(st kernel.Step, def *account.Account) *account.Account {
 	return def
 }
 
+// named returns the account whose address the transaction names; with "zo" in the step it is
+// the all-zero address (the signing key stays the account's own).
+func (s *Sim) named(a *account.Account) *account.Account {
+	if !s.zeroOwner {
+		return a
+	}
+	c := *a
+	c.Address = common.ADDRESS_EMPTY
+	return &c
+}
+
 // namedOwner is the address a step names as owner/approver/voter (params.Address).
 func (s *Sim) namedOwner(st kernel.Step) common.Address {
+	if strings.Contains(st.S, "zo") {
+		return common.ADDRESS_EMPTY
+	}
 	switch st.Op {
 	case "regchain", "updchain":
 		return s.User(st.Arg(2)).Address
